@@ -12,3 +12,21 @@ func init() {
 			"} else if i64 != math.MaxInt64 && i64 != math.MinInt64 {", "} else if i64 != math.MinInt64 {", "C06-F1", "sentinel MaxInt64"},
 	)
 }
+
+func init() {
+	addMutants(
+		Mutant{"C07", "c07-demand-summarize-no-aggs", "compiler/optimizer/demand.go", "inferDemandSeqOutWith",
+			"for _, assignment := range op.Aggs {\n\t\t\t\tdemandOpIn = demand.Union(demandOpIn, inferDemandExprIn(demand.All(), assignment.RHS))\n\t\t\t}\n", "", "C07-D7", "case compiler/ast/dag.Summarize"},
+		Mutant{"C07", "c07-demand-filter-no-downstream", "compiler/optimizer/demand.go", "inferDemandSeqOutWith",
+			"demandOpIn = demand.Union(\n\t\t\t\t// Everything that downstream operations need.\n\t\t\t\tdemandOpOut,\n\t\t\t\t// Everything that affects the outcome of this filter.\n\t\t\t\tinferDemandExprIn(demand.All(), op.Expr),\n\t\t\t)", "demandOpIn = inferDemandExprIn(demand.All(), op.Expr)", "C07-D7", "case compiler/ast/dag.Filter"},
+		Mutant{"C07", "c07-demand-agg-no-where", "compiler/optimizer/demand.go", "inferDemandExprIn",
+			"return demand.Union(\n\t\t\tinferDemandExprIn(demand.All(), expr.Expr),\n\t\t\tinferDemandExprIn(demand.All(), expr.Where),\n\t\t)", "return inferDemandExprIn(demand.All(), expr.Expr)", "C07-D7", "case compiler/ast/dag.Agg"},
+	)
+}
+
+func init() {
+	addMutants(
+		Mutant{"C07", "c07-filescan-filter-dropped", "compiler/optimizer/optimizer.go", "Optimizer.optimizeSourcePaths",
+			"case *dag.FileScan:\n\t\t\top.Filter = filter\n", "case *dag.FileScan:\n\t\t\tif op.Format == \"parquet\" {\n\t\t\t\top.Filter = filter\n\t\t\t}\n", "C07-D8", "shortened chain"},
+	)
+}
